@@ -8,6 +8,9 @@
 //!   B: the same deadline through the public client Builder (`Client::builder().with_timeout(d)`) over the in-process duplex
 //!   transport against a server whose handler answers after ti (never for '-'); p0 and handover do not apply; the instant
 //!   at which the inner future was dropped is not observable there ('-')
+//!   BR: as B, with the standard redirect policy switched on and a handler that answers `/` after ti/2 with a redirect
+//!   to `/next`, which answers after the rest of ti (ti '-': the redirect comes after 1 ms and `/next` never answers): the
+//!   deadline is one deadline for the whole request as the caller issued it, every hop included
 //!   handover 1: the first poll (at p0) is made by hand with a throw-away waker; the future is then awaited by the
 //!   main task (another waker), which only polls it when woken
 //! output:    <INNER O<v>|INNER E<e>|TIMEOUT|HANG|PANIC> <resolved at ms|-> <inner dropped at ms|-> <inner polls after drop/ready: 0>
@@ -80,7 +83,26 @@ impl Service<()> for Svc {
 
 type BoxError = Box<dyn std::error::Error + Send + Sync + 'static>;
 
-async fn answer(ti: Option<u64>, v: u64, _req: http::Request<hyperdriver::Body>) -> Result<http::Response<hyperdriver::Body>, BoxError> {
+async fn answer(ti: Option<u64>, v: u64, redir: bool, req: http::Request<hyperdriver::Body>) -> Result<http::Response<hyperdriver::Body>, BoxError> {
+    if redir {
+        let (t1, t2) = match ti {
+            Some(t) => (t / 2, Some(t - t / 2)),
+            None => (1, None),
+        };
+        if req.uri().path() == "/" {
+            tokio::time::sleep(Duration::from_millis(t1)).await;
+            return Ok(http::Response::builder()
+                .status(302)
+                .header(http::header::LOCATION, "/next")
+                .body(hyperdriver::Body::empty())
+                .unwrap());
+        }
+        match t2 {
+            Some(t) => tokio::time::sleep(Duration::from_millis(t)).await,
+            None => std::future::pending::<()>().await,
+        }
+        return Ok(http::Response::new(hyperdriver::Body::from(v.to_string())));
+    }
     match ti {
         Some(t) => tokio::time::sleep(Duration::from_millis(t)).await,
         None => std::future::pending::<()>().await,
@@ -88,14 +110,14 @@ async fn answer(ti: Option<u64>, v: u64, _req: http::Request<hyperdriver::Body>)
     Ok(http::Response::new(hyperdriver::Body::from(v.to_string())))
 }
 
-fn run_builder(d: Duration, ti: Option<u64>, v: u64) -> String {
+fn run_builder(d: Duration, ti: Option<u64>, v: u64, redir: bool) -> String {
     use hyperdriver::client::conn::transport::duplex::DuplexTransport;
     use hyperdriver::server::conn::Acceptor;
     let rt = tokio::runtime::Builder::new_current_thread().enable_time().start_paused(true).build().unwrap();
     rt.block_on(async move {
         let (client_end, incoming) = hyperdriver::stream::duplex::pair();
         let make = hyperdriver::service::make_service_fn(move |_: &<Acceptor as hyperdriver::server::conn::Accept>::Conn| async move {
-            Ok::<_, std::io::Error>(tower::service_fn(move |req: http::Request<hyperdriver::Body>| answer(ti, v, req)))
+            Ok::<_, std::io::Error>(tower::service_fn(move |req: http::Request<hyperdriver::Body>| answer(ti, v, redir, req)))
         });
         let server = hyperdriver::server::Server::builder::<hyperdriver::Body>()
             .with_acceptor(Acceptor::from(incoming))
@@ -105,12 +127,12 @@ fn run_builder(d: Duration, ti: Option<u64>, v: u64) -> String {
         let srv = tokio::spawn(async move {
             let _ = std::future::IntoFuture::into_future(server).await;
         });
-        let mut client: hyperdriver::Client = hyperdriver::Client::builder()
+        let b = hyperdriver::Client::builder()
             .with_transport(DuplexTransport::new(1 << 16, client_end))
             .with_auto_http()
             .with_pool(Default::default())
-            .with_timeout(d)
-            .build();
+            .with_timeout(d);
+        let mut client: hyperdriver::Client = if redir { b.with_standard_redirect_policy().build() } else { b.build() };
         let base = Instant::now();
         let req = http::Request::builder().uri("http://a.test/").body(hyperdriver::Body::empty()).unwrap();
         let r = tokio::time::timeout(Duration::from_millis(50_000_000), client.request(req)).await;
@@ -118,6 +140,7 @@ fn run_builder(d: Duration, ti: Option<u64>, v: u64) -> String {
         srv.abort();
         match r {
             Err(_) => "HANG - - 0".to_string(),
+            Ok(Ok(r)) if redir && r.status() != 200 => format!("INNER E{} {} - 0", r.status().as_u16(), at),
             Ok(Ok(_)) => format!("INNER O{} {} - 0", v, at),
             Ok(Err(hyperdriver::client::Error::RequestTimeout)) => format!("TIMEOUT {} - 0", at),
             Ok(Err(e)) => format!("INNER E{} {} - 0", format!("{e:?}").len() % 7, at),
@@ -127,11 +150,11 @@ fn run_builder(d: Duration, ti: Option<u64>, v: u64) -> String {
 
 fn run_case(line: &str) -> String {
     let f: Vec<&str> = line.split_whitespace().collect();
-    if f.get(5) == Some(&"B") {
+    if f.get(5) == Some(&"B") || f.get(5) == Some(&"BR") {
         let d: u128 = f[0].parse().unwrap();
         let d = Duration::new((d / 1000) as u64, ((d % 1000) * 1_000_000) as u32);
         let ti: Option<u64> = if f[2] == "-" { None } else { Some(f[2].parse().unwrap()) };
-        return run_builder(d, ti, f[3][1..].parse().unwrap());
+        return run_builder(d, ti, f[3][1..].parse().unwrap(), f[5] == "BR");
     }
     // d may exceed u64 milliseconds (Duration::MAX is about 1.8e22 ms)
     let d: u128 = f[0].parse().unwrap();
